@@ -1,5 +1,6 @@
 import SFV.Driver.Json
 import SFV.Model.IoIR
+import SFV.Model.IoCode
 /-! Driver handler for K8 (`io.*` ops).  JSON encodings (shared with `harness/lib/ioir.py`):
 `Sc` = `{"i": n}` | `{"f": [num, den]}` | `{"c": [[n, d], [n, d]]}`;
 `Val` = `{"sc": Sc}` | `{"str": s}` | `{"lst": [Sc]}` | `{"arr": {"shape": [..], "data": [Sc]}}` |
@@ -192,6 +193,20 @@ def getParse (j : Json) : R (String → Option Sym) := do
     | _ => pure []
   pure fun s => (tbl.find? (·.1 = s)).map (·.2)
 
+def jPyArg : PyArg → Json
+  | .lit s => Json.mkObj [("lit", jSc s)]
+  | .piMul c d => Json.mkObj [("pi", jarr [jint c, jnat d])]
+  | .loopIdx i => Json.mkObj [("loop", jnat i)]
+  | .text s => Json.mkObj [("text", Json.str s)]
+  | .other => Json.mkObj [("other", Json.bool true)]
+
+def jCode (c : Code) : Json :=
+  Json.mkObj [("tdmN", optJ natList c.tdmN), ("n", jnat c.n),
+    ("ctx", jarr (c.ctx.map fun r => jarr (r.map jPyArg))),
+    ("lines", jarr (c.lines.map fun l => Json.mkObj [("cls", Json.str l.cls), ("args", jarr (l.args.map jPyArg)),
+      ("select", optJ jVal l.select), ("dark", optJ jVal l.dark), ("dagger", Json.bool l.dagger),
+      ("modes", natList l.modes)]))]
+
 def handler (op : String) (j : Json) : Option (R Json) :=
   match op with
   | "io.toBB" => some do
@@ -209,6 +224,15 @@ def handler (op : String) (j : Json) : Option (R Json) :=
   | "io.fromXIR" => some do
     let x ← asXIR (← j.getObjVal? "xir")
     pure (res jProg (toProgramXIR (← getParse j) x))
+  | "io.genCode" => some do
+    let p ← asProg (← j.getObjVal? "prog")
+    pure (jCode (genCode p))
+  | "io.evalCode" => some do
+    let p ← asProg (← j.getObjVal? "prog")
+    pure (res jProg (evalCode (genCode p)))
+  | "io.genNum" => some do
+    let s ← asSc (← j.getObjVal? "x")
+    pure (jPyArg (genNum s))
   | "io.piString" => some do
     let m ← getInt j "m"
     pure (Json.str (piString m))
